@@ -188,6 +188,18 @@ func c02generate(b core.Batch) []c02target {
 			}
 		}
 	}
+	// a wider host alphabet (names and ports differing in leading/trailing characters) on a thin path sample
+	for _, h := range []string{"localhost:8080", "localhost:8000", "localhost:8", "localhost:88", "localhost:800", "localhost:8088", "localhost", "localhost:443", "localhost0:80", "localhost8:80", "xlocalhost:80",
+		"127.0.0.1:80", "127.0.0.1:8080", "127.0.0.1:8088", "127.0.0.10:80", "127.0.0.1:31080", "127.0.0.1:31088", "[::1]:80", "[::1]:8080"} {
+		for pi, p := range paths {
+			if pi%53 != 0 {
+				continue
+			}
+			for _, q := range queries[:min(len(queries), 4)] {
+				out = append(out, c02target{"GET", h, p, q})
+			}
+		}
+	}
 	// seeded random longer targets
 	rng := b.Rand("c02")
 	for i := 0; i < b.Int("random", 20000); i++ {
@@ -332,6 +344,14 @@ func c02Run(b core.Batch, r *core.Recorder) {
 	n := 0
 	confirm := func(pr c02pair, control bool) {
 		n++
+		if !strings.EqualFold(strings.TrimSuffix(pr.A.Host, ":80"), "localhost") || !strings.EqualFold(strings.TrimSuffix(pr.B.Host, ":80"), "localhost") {
+			// hosts the rig cannot route to its origin: a key shared by different hosts is itself the shared entry
+			if pr.Kind == "must-not-share" {
+				r.Violation("C02", "C02:collide:key-level:"+pr.Class, fmt.Sprintf("GET %s%s and GET %s%s have the same cache key", pr.A.Host, pr.A.wire(), pr.B.Host, pr.B.wire()),
+					map[string]any{"id": fmt.Sprintf("p%d", n), "pair": pr}, nil)
+			}
+			return
+		}
 		if pr.A.Method != "GET" || pr.B.Method != "GET" {
 			// only GET answers are stored: sharing between methods is not observable end to end;
 			// the key-level collision itself is reported
@@ -438,7 +458,7 @@ func init() {
 	core.Register(&core.Monitor{
 		ID:    "C02",
 		Level: "exploration",
-		Rule: "request targets = method {GET; thin sample of HEAD, POST} x host {localhost, LOCALHOST, LocalHost} x path '/' + up to <depth> symbols from {a, A, /, ., .., |, %7C, %2F, %2E, ;, b} x query none or '?' + up to 2 symbols from {a, |, &, =, %7C, b} (bounded-exhaustive) plus seeded random longer targets; each is parsed with http.ReadRequest and keyed with the real key function. " +
+		Rule: "request targets = method {GET; thin sample of HEAD, POST} x host {localhost, LOCALHOST, LocalHost; 19 further host:port forms on a thin path sample} x path '/' + up to <depth> symbols from {a, A, /, ., .., |, %7C, %2F, %2E, ;, b} x query none or '?' + up to 2 symbols from {a, |, &, =, %7C, b} (bounded-exhaustive) plus seeded random longer targets; each is parsed with http.ReadRequest and keyed with the real key function. " +
 			"Targets are bucketed by key and by the reference identity (method, lower-cased host, raw path split on literal '/' with dot-segments removed [duplicate slashes merged and unreserved pct-escapes normalised in the loose identity], trailing slash significant, raw query). Every bucket split by the other partition gives candidate pairs (up to 12 per class), confirmed through the real proxy with an origin whose body names the request it answered; 9 fixed control pairs are always confirmed. Non-trivial = distinct pair confirmed end to end.",
 		Assumptions: []string{"pairs differing only in percent-encoding of unreserved characters or in duplicate slashes are neither required to share nor to be distinct",
 			"if the origin would receive byte-identical targets for both requests, sharing is unobservable and the pair is not judged", "sharing between different methods is not observable end to end (only GET answers are stored); a key-level collision between methods is reported as such"},
